@@ -159,7 +159,7 @@ def register_p(reg, prop):
     assert sorted(order) == sorted(bits)
     insts = [((), "quick", True)] + [((b,), "quick", False) for b in order] + [((a, b), "quick", False) for a, b in zip(order, order[1:])]
     insts += [((a, b), "thorough", True) for a, b in itertools.combinations(order, 2)]
-    insts.append((tuple(order), "thorough", True))
+    insts.append((tuple(order), "thorough", False))      # all 2^11 combinations; the kind dispatch is covered by the pair instances
     av, pr = int(tmpls.PCode.AVATAR), int(tmpls.PCode.PRIMITIVE)
     for free, tier, kinds_free in insts:
         others = allmask & ~sum(free)
